@@ -9,6 +9,7 @@ P = ['C06', 'C01']
 S = 'src/parse_scalars.rs'
 ITEMS = location_types() + budget_types() + error_types() + [
     dict(src=S, path='fn parse_digits_u128', props=P, loop_rewrites=[(1, 'slice')],
+         bounded=dict(harness='bounded/parse_digits.rs', items=[('src/parse_scalars.rs', 'fn parse_digits_u128')]),
          requires=[('radix_range', '2 <= radix <= 16')],
          ensures=[('exact_value_or_none', '''r == (match digits_value(digits.spec_bytes(), radix as nat) {
                 Some(v) => if v <= u128::MAX { Some(v as u128) } else { None },
